@@ -1025,12 +1025,41 @@ func genFunctionWrapper(n *node) func(*frame) reflect.Value {
 		isDefer = true
 	}
 
+	// recvValue returns the method receiver, as a value or a pointer according
+	// to the kind dk of the receiver parameter.
+	recvValue := func(f *frame, dk reflect.Kind) reflect.Value {
+		src := rcvr(f)
+		sk := src.Kind()
+		for {
+			vs, ok := src.Interface().(valueInterface)
+			if !ok {
+				break
+			}
+			src = vs.value
+			sk = src.Kind()
+		}
+		switch {
+		case sk == reflect.Ptr && dk != reflect.Ptr:
+			return src.Elem()
+		case sk != reflect.Ptr && dk == reflect.Ptr:
+			return src.Addr()
+		}
+		return src
+	}
+
 	return func(f *frame) reflect.Value {
 		v := value(f)
 		if !isDefer && v.Kind() == reflect.Func {
 			// fixes #1634, if v is already a func, then don't re-wrap
 			// because original wrapping cloned the frame but this doesn't
 			return v
+		}
+
+		var recv reflect.Value
+		if isDefer && rcvr != nil {
+			// The receiver of a deferred method call is evaluated and saved
+			// when the defer statement is executed.
+			recv = copyValue(recvValue(f, def.types[numRet].Kind()))
 		}
 
 		return reflect.MakeFunc(funcType, func(in []reflect.Value) []reflect.Value {
@@ -1045,23 +1074,10 @@ func genFunctionWrapper(n *node) func(*frame) reflect.Value {
 				d = d[numRet:]
 			} else {
 				// Copy method receiver as first argument.
-				src, dest := rcvr(f), d[numRet]
-				sk, dk := src.Kind(), dest.Kind()
-				for {
-					vs, ok := src.Interface().(valueInterface)
-					if !ok {
-						break
-					}
-					src = vs.value
-					sk = src.Kind()
-				}
-				switch {
-				case sk == reflect.Ptr && dk != reflect.Ptr:
-					dest.Set(src.Elem())
-				case sk != reflect.Ptr && dk == reflect.Ptr:
-					dest.Set(src.Addr())
-				default:
-					dest.Set(src)
+				if dest := d[numRet]; recv.IsValid() {
+					dest.Set(recv)
+				} else {
+					dest.Set(recvValue(f, dest.Kind()))
 				}
 				d = d[numRet+1:]
 			}
